@@ -170,7 +170,7 @@ func (m *Machine) Explore(root *ssa.Package, fn *ssa.Function, args []value, job
 			completed = true
 		}()
 		res.Paths++
-		if completed && len(res.Samples) < e.MaxSamples && !e.inconcl && !e.violated {
+		if completed && len(res.Samples) < e.MaxSamples && !e.inconcl && !e.violated && !hasPoolChoice(e.sched) {
 			if script := e.sampleModel(); script != nil {
 				res.Samples = append(res.Samples, Sample{Job: job, Script: script, Trace: append([]string{}, e.trace...), Sched: append([]string{}, e.sched...)})
 			}
@@ -310,3 +310,14 @@ func permute(keys []value, schedule bool) []value {
 var MaxPermute = 3
 
 func JobArgs(job string) []value { return []value{job} }
+
+// pool hand-back choices cannot be forced on the real sync.Pool, so such paths are not used
+// as conformance samples
+func hasPoolChoice(sched []string) bool {
+	for _, s := range sched {
+		if strings.HasPrefix(s, "pool-get:") {
+			return true
+		}
+	}
+	return false
+}
